@@ -61,6 +61,15 @@ func opWrite(name string, p mq.Packet) thrOp {
 		return fmt.Sprintf("%x n=%d err=%v", b.Bytes(), n, err)
 	}}
 }
+// opWriteFail: the writer accepts k bytes and fails (the error path of
+// WriteTo is read-only code too).
+func opWriteFail(name string, p mq.Packet, k int) thrOp {
+	return thrOp{fmt.Sprintf("%s.WriteTo(writer fails after %d bytes)", name, k), func() string {
+		n, err := p.WriteTo(&failingWriter{k: k})
+		return fmt.Sprintf("n=%d err=%v", n, err != nil)
+	}}
+}
+
 func opString(name string, p mq.Packet) thrOp {
 	return thrOp{name + ".String", func() string { return p.String() }}
 }
@@ -211,6 +220,17 @@ func Scenarios() []scenario {
 		out = append(out, scenario{"same-packet/" + bind.TypeNames[t], func() ([]any, [][]thrOp) {
 			p := mustBuild(richPacket(t, true))
 			return []any{p}, [][]thrOp{{opWrite("A", p)}, {opWrite("B", p), opString("B", p)}}
+		}})
+	}
+	// a write that fails part way, next to writes and renderings of the same packet
+	for _, t := range allTypes {
+		t := t
+		out = append(out, scenario{"write-fault-on-shared-packet/" + bind.TypeNames[t], func() ([]any, [][]thrOp) {
+			p := mustBuild(richPacket(t, true))
+			var b bytes.Buffer
+			p.WriteTo(&b)
+			n := b.Len()
+			return []any{p}, [][]thrOp{{opWriteFail("A", p, 0), opWriteFail("A", p, n/2), opWriteFail("A", p, n-1)}, {opWrite("B", p), opString("B", p)}}
 		}})
 	}
 	for _, t := range allTypes {
